@@ -141,8 +141,27 @@ class Ex:
                 l = int(base[1][1:])
             if l is not None and len(flds) >= 2 and flds[0][:1] == "@" and flds[1].isdigit():
                 vname = flds[0][1:]
-                ds = self.tr.defs.get(l, [])
-                keep, ok = [], len(ds) >= 1 and l > self.b.raw["arg_count"]
+                # the definitions that can be read here; a plain copy of another carrier (`x = move slot`, possibly once per
+                # copy of a threaded path) stands for that carrier's definitions
+                ds, work, seen_l = [], [l], set()
+                ok = l > self.b.raw["arg_count"]
+                while work and ok:
+                    l_ = work.pop()
+                    if l_ in seen_l:
+                        continue
+                    seen_l.add(l_)
+                    for d in self.tr.defs.get(l_, []):
+                        lhs = d[3]["p"] if d[2] == "assign" else (d[3]["dest"] if d[2] == "call" else None)
+                        if lhs is None or lhs["p"]:
+                            ok = False
+                            break
+                        if d[2] == "assign" and d[3]["rv"]["r"] == "use" and op_place(d[3]["rv"]["o"]) is not None and \
+                                not op_place(d[3]["rv"]["o"])["p"] and len(seen_l) < 6:
+                            work.append(op_place(d[3]["rv"]["o"])["l"])
+                            continue
+                        ds.append(d)
+                ok = ok and len(ds) >= 1
+                keep = []
                 for d in ds:
                     lhs = d[3]["p"] if d[2] == "assign" else (d[3]["dest"] if d[2] == "call" else None)
                     if lhs is None or lhs["p"]:
